@@ -33,7 +33,7 @@
    full_limits_b, fks_b). *)
 
 From Coq Require Sorted Arith.
-From RS Require Base Network NetSpec Tour TourStmts TourExactStmts Transition Schedule NoPanicStmts BaseFacts NetFacts TourSpec TourFacts TourValidFacts TourExactFacts TransSpec SchedInv SchedObs SchedStruct SchedCostsFacts SchedUnservedFacts SchedViolFacts SchedListFacts SchedToursFacts SchedFormLimFacts SchedUsageFacts SchedFormsFacts SchedTransFacts SchedExactFacts Swaps SwapsStmts SwapsFacts SwapsStmts2 SwapsFacts2 PipelineSched RenderStmts TransStmts TransFacts TransFacts2 DepotStmts DepotFacts EndToEndStmts EndToEndFacts NoPanicFactsA LoadStmts LoadFacts RenderFacts4.
+From RS Require SchedPeel Base Network NetSpec Tour TourStmts TourExactStmts Transition Schedule NoPanicStmts BaseFacts NetFacts TourSpec TourFacts TourValidFacts TourExactFacts TransSpec SchedInv SchedObs SchedStruct SchedCostsFacts SchedUnservedFacts SchedViolFacts SchedListFacts SchedToursFacts SchedFormLimFacts SchedUsageFacts SchedFormsFacts SchedTransFacts SchedExactFacts Swaps SwapsStmts SwapsFacts SwapsStmts2 SwapsFacts2 PipelineSched RenderStmts TransStmts TransFacts TransFacts2 DepotStmts DepotFacts EndToEndStmts EndToEndFacts NoPanicFactsA LoadStmts LoadFacts RenderFacts4.
 
 Module NPB_defs.
 Import Base Network NetSpec Tour TourStmts TourExactStmts Transition Schedule NoPanicStmts.
@@ -1300,6 +1300,17 @@ Proof.
     destruct (veh_facts s r I L T G1) as (_ & _ & _ & _ & _ & _ & Dr).
     rewrite Dr in HT2. subst T2. rewrite vget_vset, vid_eqb_refl in Gt. inversion Gt; subst t. exact (Er Dr). }
   rewrite EU2. cbn [bind].
+  (* the start depot handed to the receiver has room (Err allowed) *)
+  apply nc_bind.
+  { destruct (vget r (s_vehicles s)) as [rty|] eqn:Gr; [|apply nc_ok].
+    pose proof (vehicle_get s r rty Gr) as Evr.
+    destruct (veh_facts s r I L T Evr) as (ty & ot & Gv & Ht & Gt & [A B] & Dr).
+    rewrite Dr in HT2. subst T2. rewrite vget_vset, vid_eqb_refl. cbn [unwrap_opt bind].
+    destruct (Er Dr) as [A' B']. unfold start_depot. rewrite A'. cbn [bind].
+    rewrite Gt. cbn [unwrap_opt bind]. rewrite A. cbn [bind].
+    destruct (negb _); [|apply nc_ok].
+    match goal with |- no_crash (if ?c then _ else _) => destruct c end; [apply nc_err | apply nc_ok]. }
+  intros _ _.
   (* the formations *)
   apply nc_bind; [apply utf_nc; exact HF|]. intros [f2 u2] _. apply nc_ok.
 Qed.
@@ -1765,7 +1776,7 @@ Proof.
   { destruct replaced as [np|]; [|apply nc_ok].
     apply nc_bind.
     - destruct (is_vehicle s r); [|apply nc_ok]. apply utf_nc.
-      unfold update_tours in Eut. monp Eut. mon Eut. monp Eut. mon Eut. monp Eut. inversion Eut; subst; clear Eut.
+      apply SchedPeel.update_tours_peel in Eut. unfold update_tours_prefix in Eut. monp Eut. mon Eut. monp Eut. mon Eut. monp Eut. inversion Eut; subst; clear Eut.
       eapply has_forms_kept; [eassumption|]. now apply has_forms_all.
     - intros [f2 u2] _. destruct (tour_new_dummy nw np); cbn [add_dummy_tour]; apply nc_ok. }
   intros [[[[[forms uns] dummies] dids] counter] newd] _.
@@ -2122,7 +2133,7 @@ Lemma update_tours_sub s vehicles tours forms usage dummies ids dids uns costs p
     = Ok (vehicles1, tours2, forms2, usage2, dummies2, ids1, dids1, uns2, costs2) ->
   forall x ty, vget x vehicles1 = Some ty -> vget x vehicles = Some ty.
 Proof.
-  intros H. unfold update_tours in H.
+  intros H. apply SchedPeel.update_tours_peel in H. unfold update_tours_prefix in H.
   monp H. mon H. monp H. mon H. monp H. inversion H; subst; clear H.
   destruct ntp as [nt|].
   - monp E. inversion E; subst; clear E. auto.
